@@ -156,6 +156,14 @@ class ConcreteCtx(_Base):
     def hash(self, obj):
         return hash(obj)
 
+    def b64encode(self, b):
+        import base64
+        return base64.b64encode(bytes(b))
+
+    def b64decode(self, b):
+        import base64
+        return base64.b64decode(bytes(b))
+
     def ord1(self, ch):
         return ord(ch)
 
@@ -356,6 +364,14 @@ def make_symctx_class():
         def hash(self, obj):
             """the library object's own __hash__ result (a hash token comparing like the hashed bytes)"""
             return type(obj).__hash__(obj)
+
+        def b64encode(self, b):
+            from . import stubs
+            return stubs.b64encode_v(vtypes.VBytes(b))
+
+        def b64decode(self, b):
+            from . import stubs
+            return stubs.b64decode_v(b)
 
         def ord1(self, ch):
             if isinstance(ch, vtypes.VStr):
